@@ -691,10 +691,10 @@ class CouplingAnalysisPurePython:
         #  - Odd sample number: (mean, pos. freq, neg. freq)
         if (ntime % 2) == 0:
             surrogates[:, lenPhase+2:ntime] = \
-                numpy.flipud(surrogates[:, 1:lenPhase+1].conjugate())
+                numpy.fliplr(surrogates[:, 1:lenPhase+1].conjugate())
         else:
             surrogates[:, lenPhase+1:ntime] = \
-                numpy.flipud(surrogates[:, 1:lenPhase+1].conjugate())
+                numpy.fliplr(surrogates[:, 1:lenPhase+1].conjugate())
 
         #  Calculate IFFT and take the real part, the remaining imaginary part
         #  is due to numerical errors
